@@ -19,10 +19,11 @@ Record cfg := mkCfg {
   f37 : bool;   (* ImportAlreadyExistsError is caught in the add-missing loop too *)
   f38 : bool;   (* a last prologue line without newline is terminated before the new import block *)
   f40 : bool;   (* a bytes-literal statement is not a docstring *)
-  f45 : bool    (* an emptied import block that continued a backslash line prints a newline *)
+  f45 : bool;   (* an emptied import block that continued a backslash line prints a newline *)
+  f46 : bool    (* a from-__future__ import joins only a block that holds a from-__future__ import *)
 }.
-Definition repaired : cfg := mkCfg true true true true true true true true true true true.
-Definition unchanged : cfg := mkCfg false false false false false false false false false false false.
+Definition repaired : cfg := mkCfg true true true true true true true true true true true true.
+Definition unchanged : cfg := mkCfg false false false false false false false false false false false false.
 
 (* where the code raises: ConflictingImportsError (ImportSet.pretty_print), LineNumberAmbiguousError,
    Exception("Multiple imports to remove"), TypeError (tuple comparison falls through to the block objects),
@@ -153,6 +154,7 @@ Fixpoint remove_all (c : cfg) (bs : list block) (us : list (nat * import)) : res
       annotated_blocks.sort()              [F35: .sort(key=lambda ab: ab[0])]
       if imp.split.module_name == '__future__':
           if not annotated_blocks[-1][0][0] > 0: raise NoImportBlockError
+          [F46:  if not any(oimp.split.module_name == '__future__' for oimp in annotated_blocks[-1][1].importset.imports)]
       return annotated_blocks[-1][1]
     max_lineno = Inf is None here.
     [F8b]  the filter becomes: the block's last line is before max_lineno, or it is max_lineno and the block
@@ -193,7 +195,8 @@ Definition select_block (c : cfg) (bs : list block) (imp : import) (L : option n
   if negb (f35 c) && has_tie imp cs then Err ESortTie
   else match best_of imp cs None with
        | None => Ok None
-       | Some b => if is_future imp && negb (0 <? fst (key_of imp b)) then Ok None else Ok (Some b)
+       | Some b => if is_future imp && negb (if f46 c then existsb is_future (ib_imps b) else 0 <? fst (key_of imp b))
+                   then Ok None else Ok (Some b)
        end.
 
 (* ---------------------------------------------------------------------------------------------- *)
